@@ -16,6 +16,7 @@ def ansLine : Ans → String
   | .deps (.known reqs cons) => "deps known reqs" ++ reqs.foldl (fun s r => s ++ " " ++ reqS r) "" ++ " cons" ++ natListS cons
   | .deps (.unknown r) => s!"deps unknown {r}"
   | .bool b => s!"bool {if b then 1 else 0}"
+  | .word w => w
 
 def parseOp (l : String) : Option Op :=
   match words l with
@@ -25,6 +26,9 @@ def parseOp (l : String) : Option Op :=
   | ["op", "sorted", r] => some (.sorted (parseReq r))
   | ["op", "deps", s] => some (.deps (nat! s))
   | ["op", "avail", s] => some (.available (nat! s))
+  | ["op", "dstart", s] => some (.depsStart (nat! s))
+  | ["op", "ddrop", s] => some (.depsDrop (nat! s))
+  | ["op", "dfinish", s] => some (.depsFinish (nat! s))
   | _ => none
 
 def runCache (lines : List String) : List String :=
